@@ -1,5 +1,376 @@
 package main
 
-func cmdCheck(args []string) int  { return 2 }
-func cmdReplay(args []string) int { return 2 }
-func cmdList()                    {}
+import (
+	"encoding/json"
+	"flag"
+	"fmt"
+	"os"
+	"os/exec"
+	"path/filepath"
+	"sort"
+	"strconv"
+	"strings"
+	"sync"
+	"time"
+)
+
+// HarnessDef registers one harness of a property.
+type HarnessDef struct {
+	ID       string // lemma id, e.g. H17.1
+	Spec     HarnessSpec
+	Thorough *HarnessSpec // overrides for the thorough tier (nil: same as quick)
+	Tier     string       // "" = both tiers, "thorough" = thorough tier only
+	ReplayFn string       // native replay function in the overlay (default: the harness itself)
+	// KnownFinding: this harness isolates a listed finding: `sat` is expected
+	// while the finding is open and prints KNOWN-FINDING instead of VIOLATION.
+	KnownFinding string
+	What         string // one line: what the harness decides
+	Bounds       string // stated bounds
+	Outside      string // what lies outside them
+}
+
+type KnownFinding struct {
+	ID       string `json:"id"`
+	Property string `json:"property"`
+	Status   string `json:"status"` // open | fixed
+	Identity string `json:"identity"`
+	Commit   string `json:"commit,omitempty"`
+	Note     string `json:"note,omitempty"`
+}
+
+func loadKnown() []KnownFinding {
+	b, err := os.ReadFile(filepath.Join(verifRoot, "known_findings.json"))
+	if err != nil {
+		return nil
+	}
+	var f struct {
+		Findings []KnownFinding `json:"findings"`
+	}
+	if err := json.Unmarshal(b, &f); err != nil {
+		fmt.Fprintln(os.Stderr, "known_findings.json:", err)
+		os.Exit(2)
+	}
+	return f.Findings
+}
+
+type runOut struct {
+	def *HarnessDef
+	res *HarnessResult
+	err error
+}
+
+func runSub(def *HarnessDef, spec *HarnessSpec, tmp string) runOut {
+	sp := filepath.Join(tmp, def.ID+"_"+spec.Name+".spec.json")
+	op := filepath.Join(tmp, def.ID+"_"+spec.Name+".out.json")
+	if err := writeJSON(sp, spec); err != nil {
+		return runOut{def: def, err: err}
+	}
+	exe, _ := os.Executable()
+	cmd := exec.Command(exe, "run-harness", "--spec", sp, "--out", op)
+	cmd.Env = append(os.Environ(), "VERIF_ROOT="+verifRoot)
+	outb, err := cmd.CombinedOutput()
+	if err != nil {
+		return runOut{def: def, err: fmt.Errorf("%v: %s", err, tail(string(outb), 2000))}
+	}
+	b, err := os.ReadFile(op)
+	if err != nil {
+		return runOut{def: def, err: err}
+	}
+	var res HarnessResult
+	if err := json.Unmarshal(b, &res); err != nil {
+		return runOut{def: def, err: err}
+	}
+	return runOut{def: def, res: &res}
+}
+
+func tail(s string, n int) string {
+	if len(s) > n {
+		return s[len(s)-n:]
+	}
+	return s
+}
+
+func cmdList() {
+	var ids []string
+	for id := range registry {
+		ids = append(ids, id)
+	}
+	sort.Strings(ids)
+	for _, id := range ids {
+		for _, h := range registry[id] {
+			fmt.Printf("%s %s %s [%s] %s\n", id, h.ID, h.Spec.Name, h.Tier, h.What)
+		}
+	}
+}
+
+func cmdCheck(args []string) int {
+	fs := flag.NewFlagSet("check", flag.ExitOnError)
+	prop := fs.String("property", "", "property id")
+	tier := fs.String("tier", "", "quick|thorough")
+	only := fs.String("only", "", "run only harnesses whose id or name contains this")
+	par := fs.Int("j", 14, "parallel harness processes")
+	fs.Parse(args)
+	if *tier == "" {
+		*tier = os.Getenv("VERIF_TIER")
+	}
+	if *tier == "" {
+		*tier = "quick"
+	}
+	seed, _ := strconv.Atoi(os.Getenv("VERIF_SEED"))
+	defs, ok := registry[*prop]
+	if !ok {
+		fmt.Fprintln(os.Stderr, "unknown property", *prop)
+		return 2
+	}
+	t0 := time.Now()
+	known := loadKnown()
+	openIDs := map[string]*KnownFinding{}
+	for i := range known {
+		if known[i].Status == "open" && known[i].Property == *prop {
+			openIDs[known[i].ID] = &known[i]
+		}
+	}
+	tmp, err := os.MkdirTemp("", "gosmt-check-")
+	if err != nil {
+		fmt.Fprintln(os.Stderr, err)
+		return 2
+	}
+	defer os.RemoveAll(tmp)
+
+	var jobs []*HarnessDef
+	var specs []*HarnessSpec
+	for i := range defs {
+		d := &defs[i]
+		if d.Tier == "thorough" && *tier != "thorough" {
+			continue
+		}
+		if *only != "" && !strings.Contains(d.ID, *only) && !strings.Contains(d.Spec.Name, *only) {
+			continue
+		}
+		if d.KnownFinding != "" && openIDs[d.KnownFinding] == nil {
+			continue // finding not listed as open: its region is part of the main harness
+		}
+		sp := d.Spec
+		if *tier == "thorough" && d.Thorough != nil {
+			sp = *d.Thorough
+			if sp.Name == "" {
+				sp.Name = d.Spec.Name
+			}
+			if sp.Pkg == "" {
+				sp.Pkg = d.Spec.Pkg
+			}
+			if sp.Redirects == nil {
+				sp.Redirects = d.Spec.Redirects
+			}
+		}
+		for id := range openIDs {
+			sp.KnownOpen = append(sp.KnownOpen, id)
+		}
+		sort.Strings(sp.KnownOpen)
+		jobs = append(jobs, d)
+		spc := sp
+		specs = append(specs, &spc)
+	}
+	results := make([]runOut, len(jobs))
+	sem := make(chan struct{}, *par)
+	var wg sync.WaitGroup
+	for i := range jobs {
+		wg.Add(1)
+		go func(i int) {
+			defer wg.Done()
+			sem <- struct{}{}
+			defer func() { <-sem }()
+			results[i] = runSub(jobs[i], specs[i], tmp)
+		}(i)
+	}
+	wg.Wait()
+
+	// ---- aggregate ----
+	exit := 0
+	violations := 0
+	var lines []string
+	var samples []interface{}
+	evals, nontrivial := 0, 0
+	solverS := 0.0
+	funcs := map[string]int{}
+	stubs := map[string]int{}
+	notes := map[string]bool{}
+	var harnessSumm []map[string]interface{}
+	obligations, discharged, inconclusive := 0, 0, 0
+	unwind := map[string]int{}
+	seenOb := map[string]bool{}
+	os.MkdirAll(filepath.Join(verifRoot, "replays"), 0o755)
+	for i, ro := range results {
+		d := jobs[i]
+		summ := map[string]interface{}{"lemma": d.ID, "harness": specs[i].Name, "pkg": specs[i].Pkg, "what": d.What,
+			"bounds": d.Bounds, "outside_claim": d.Outside, "loop_bound": specs[i].LoopBound}
+		if ro.err != nil || ro.res == nil {
+			lines = append(lines, fmt.Sprintf("INCONCLUSIVE property=%s harness=%s: %v", *prop, specs[i].Name, ro.err))
+			summ["status"] = "error"
+			harnessSumm = append(harnessSumm, summ)
+			if exit == 0 {
+				exit = 2
+			}
+			continue
+		}
+		r := ro.res
+		summ["status"] = r.Status
+		summ["queries"] = r.Queries
+		summ["solver_time_s"] = r.SolverS
+		summ["encode_time_s"] = r.ExecS
+		summ["term_nodes"] = r.Nodes
+		summ["ssa_instructions"] = r.Steps
+		summ["solver"] = r.Solver
+		summ["nondet_inputs"] = len(r.Nondets)
+		summ["assumptions"] = r.NAssume
+		evals += r.Queries
+		solverS += r.SolverS
+		for k, v := range r.Functions {
+			funcs[k] += v
+		}
+		for k, v := range r.Stubs {
+			stubs[k] += v
+		}
+		for _, n := range r.Notes {
+			notes[n] = true
+		}
+		for k, v := range r.Unwind {
+			if v > unwind[k] {
+				unwind[k] = v
+			}
+		}
+		if r.Status == "unsupported" {
+			lines = append(lines, fmt.Sprintf("INCONCLUSIVE property=%s harness=%s: %s", *prop, r.Name, r.Error))
+			summ["error"] = r.Error
+			harnessSumm = append(harnessSumm, summ)
+			if exit == 0 {
+				exit = 2
+			}
+			continue
+		}
+		reachOK := true
+		for _, ob := range r.Obs {
+			if ob.Kind == "reach" && ob.Verdict != "sat" {
+				reachOK = false
+			}
+		}
+		var obsumm []map[string]interface{}
+		for _, ob := range r.Obs {
+			key := r.Name + "|" + ob.Label + "|" + ob.Pos
+			os := map[string]interface{}{"label": ob.Label, "kind": ob.Kind, "site": ob.Pos, "verdict": ob.Verdict, "time_s": ob.TimeS}
+			if ob.Kind == "reach" {
+				if ob.Verdict != "sat" {
+					lines = append(lines, fmt.Sprintf("INCONCLUSIVE property=%s harness=%s: vacuity witness '%s' is %s", *prop, r.Name, ob.Label, ob.Verdict))
+					if exit == 0 {
+						exit = 2
+					}
+				}
+				obsumm = append(obsumm, os)
+				continue
+			}
+			obligations++
+			switch {
+			case ob.Verdict == "unsat":
+				discharged++
+				if reachOK && !seenOb[key] {
+					seenOb[key] = true
+					nontrivial++
+				}
+			case ob.Verdict == "sat":
+				// counterexample: replay natively before reporting
+				rp := filepath.Join(verifRoot, "replays", fmt.Sprintf("%s_%s_%d.json", *prop, r.Name, len(lines)))
+				rec := ReplayRecord{Property: *prop, Harness: r.Name, Pkg: r.Pkg, Label: ob.Label, Kind: ob.Kind, Site: ob.Pos, Vector: ob.Model, ReplayFn: d.ReplayFn, Redirects: specs[i].Redirects}
+				writeJSON(rp, rec)
+				reproduced, detail := replayRecord(&rec)
+				os["replay"] = rp
+				os["reproduced"] = reproduced
+				os["replay_detail"] = detail
+				os["model"] = ob.Model
+				if d.KnownFinding != "" {
+					kf := openIDs[d.KnownFinding]
+					if reproduced {
+						lines = append(lines, fmt.Sprintf("KNOWN-FINDING: property=%s %s [%s] (%s; replay=%s)", *prop, kf.Identity, kf.ID, ob.Label, rp))
+					} else {
+						lines = append(lines, fmt.Sprintf("INCONCLUSIVE property=%s harness=%s: known finding %s is sat but did not reproduce natively: %s", *prop, r.Name, kf.ID, detail))
+						if exit == 0 {
+							exit = 2
+						}
+					}
+				} else if reproduced {
+					violations++
+					lines = append(lines, fmt.Sprintf("VIOLATION property=%s replay=%s", *prop, rp))
+					lines = append(lines, fmt.Sprintf("  harness=%s obligation=%q site=%s detail=%s", r.Name, ob.Label, ob.Pos, detail))
+					exit = 1
+				} else {
+					lines = append(lines, fmt.Sprintf("INCONCLUSIVE property=%s harness=%s: counterexample for %q did not reproduce natively (%s); model kept at %s", *prop, r.Name, ob.Label, detail, rp))
+					if exit == 0 {
+						exit = 2
+					}
+				}
+			default:
+				inconclusive++
+				lines = append(lines, fmt.Sprintf("INCONCLUSIVE property=%s harness=%s: %q -> %s", *prop, r.Name, ob.Label, ob.Verdict))
+				if exit == 0 {
+					exit = 2
+				}
+			}
+			obsumm = append(obsumm, os)
+		}
+		if d.KnownFinding != "" && r.Status == "ok" {
+			summ["known_finding_gone"] = true
+		}
+		summ["obligations"] = obsumm
+		harnessSumm = append(harnessSumm, summ)
+		if len(samples) < 12 && len(obsumm) > 0 {
+			samples = append(samples, map[string]interface{}{"harness": r.Name, "lemma": d.ID, "obligation": obsumm[0], "inputs": r.Nondets})
+		}
+	}
+	if violations > 0 {
+		exit = 1
+	}
+	for _, l := range lines {
+		fmt.Println(l)
+	}
+	wall := time.Since(t0).Seconds()
+	if nontrivial < 2 && exit == 0 {
+		// schema floor; a check with fewer than 2 obligations is not a check
+		fmt.Printf("INCONCLUSIVE property=%s: fewer than 2 non-trivial obligations discharged\n", *prop)
+		exit = 2
+	}
+	ev := map[string]interface{}{
+		"property_id": *prop, "tier": *tier, "seed": seed, "level": "model_checking", "wall_s": wall, "violations": violations,
+		"assumptions": sortedKeys(notes),
+		"coverage": map[string]interface{}{
+			"evaluations":         max(evals, 1),
+			"distinct_nontrivial": nontrivial,
+			"rule": "evaluations = SMT queries issued (group query per harness, individual queries on sat/unknown, one vacuity witness per harness). " +
+				"distinct_nontrivial = distinct (harness, label, site) obligations — vAssert, every reachable Go panic site, every unwinding assertion — that survived constant folding, were answered unsat by the solver, and whose harness vacuity witness was sat.",
+			"samples":                  samples,
+			"exhaustive":               false,
+			"obligations":              obligations,
+			"discharged":               discharged,
+			"inconclusive":             inconclusive,
+			"solver_time_s":            solverS,
+			"functions_encoded":        funcs,
+			"stubs":                    stubs,
+			"unwinding_bounds_reached": unwind,
+			"harnesses":                harnessSumm,
+			"checker_cmd":              "bin/gosmt check --property " + *prop + " --tier " + *tier,
+			"explanation":              "Go SSA of /repo's current tree is symbolically executed (calls inlined, loops unrolled to the stated bound, join points merged with ite) and every obligation is decided by z3 for all values of the symbolic inputs within the bounds; nothing is claimed outside them.",
+		},
+	}
+	os.MkdirAll(filepath.Join(verifRoot, "evidence"), 0o755)
+	writeJSON(filepath.Join(verifRoot, "evidence", *prop+".json"), ev)
+	fmt.Printf("property=%s tier=%s harnesses=%d obligations=%d discharged=%d inconclusive=%d violations=%d queries=%d solver_s=%.1f wall_s=%.1f exit=%d\n",
+		*prop, *tier, len(jobs), obligations, discharged, inconclusive, violations, evals, solverS, wall, exit)
+	return exit
+}
+
+func sortedKeys(m map[string]bool) []string {
+	out := []string{}
+	for k := range m {
+		out = append(out, k)
+	}
+	sort.Strings(out)
+	return out
+}
